@@ -653,6 +653,9 @@ pub fn catch<R>(f: impl FnOnce() -> R) -> Result<R, String> {
 
 /// Silence the default panic hook (subjects are run under catch_unwind by the thousands).
 pub fn quiet_panics() {
+    if std::env::var_os("VERIF_LOUD_PANICS").is_some() {
+        return;
+    }
     std::panic::set_hook(Box::new(|_| {}));
 }
 
